@@ -112,7 +112,8 @@ prop(
     "Worlds with defaults anywhere (octave -10..10, semitone -60..60, channel 1-16, velocity 0/1/64/100/127, any default mapping), base notes "
     "0-127, offsets {0,1,7,15}; histories of taps, bursts of up to 14 taps (reaching |octave| 12, channel 16, last mapping), holds, up/down pairs "
     "pressed and released in both orders; generator keeps the quantifier's precondition (no action pressed while a complete pair is held). "
-    "TestC04Grid enumerates every base note x octave -12..12 x semitone in {-13,-1,0,1,13} x channel x offset. Oracle: after every step "
+    "TestC04Grid enumerates every base note x octave -12..12 x semitone in {-13,-1,0,1,13} x channel x offset, and every base note x octave -13..13 x "
+    "every semitone shift -30..30 (octaves and semitones that cancel, or almost). Oracle: after every step "
     "State() equals the reference model; every note press emits exactly NoteOn(((ch-1+off) mod 16)+1, base+12*oct+semi, velocity) or nothing "
     "when out of 0-127. Non-trivial = out-of-range press, |12*octave| > 127, wrapping offset, saturating step or pair reset.",
     [
